@@ -30,18 +30,53 @@
      Dev_TerminateKeepsObjects    Service.Terminate leaves the objects registered: a later Remove
                                   (or a second Terminate) runs OnTerminate again
      Dev_FailedAddLeavesEntry     a failed activation leaves objects[id] = nil (and a mailbox that
-                                  never answers): Remove(id) / Terminate then dereference nil       *)
+                                  never answers): Remove(id) / Terminate then dereference nil
+
+   THE CLIENT-SIDE SERVICE (ClientSide = TRUE): bus/service_reference.go, clientService -
+   the objects a client hosts (proxy.ProxyService), reached through handlers on the client's
+   end point.  The same object table, the same invariants; what differs is modelled as what
+   the code does:
+
+     identifiers      2^31 + counter (nextID), never reused: the n-th Add gets identifier n in the
+                      model (real identifier 2^31 + n - 1, compared exactly by the harness);
+                      there is no main object
+     objects[id]      the entry of objectsHandlers (id -> handler slot, kept in `slot`)
+     handlers[s]      the end point's handler table (bus/net/endpoint.go): MakeHandler takes the
+                      FIRST free slot, RemoveHandler(s) closes whatever handler sits in slot s; the
+                      handler's closer runs OnTerminate
+     boxes[id]        the instance whose handler filters on id (what an incoming message reaches)
+     Add              l.56-97: activation errors are IGNORED (AddFail = Add), handler registered
+     Remove(id)       l.99-108: entry looked up and deleted, RemoveHandler(slot): an error if the
+                      entry is unknown or the handler is already gone
+     RemoteTerminate  a terminate frame runs Activation.Terminate = Remove(own id) on the handler's
+                      consumer goroutine
+     SvcTerminate     l.110-120: Remove of every entry (stops at the first error); the service
+                      stays usable
+     ConnClose        the end point shuts down (endPoint.closeWith): the closer of EVERY handler
+                      runs - every object is terminated exactly once; the entries stay behind
+                      (a later Remove / Terminate reports an error, nothing runs twice)
+     a message to an identifier without handler is refused by the end point's dispatcher
+
+   Deviations of the client-side service:
+     Dev_ClientRemoveKeepsEntry   Remove leaves the objectsHandlers entry: a second Remove of the
+                                  same identifier closes whichever handler now sits in the slot
+                                  (add X, remove X, add Y, remove X terminates Y)
+     Dev_ClientLateCallDropped    the code as found: a call addressed to a removed client-side
+                                  object matches no handler and is dropped - never answered     *)
 EXTENDS Naturals, FiniteSets, TLC
 
 CONSTANTS MaxInst, Subs,
           MaxExec, MaxEmit,     \* bounds of the counters (state constraint Bounded)
           Dev_BoxKeptAfterRemove, Dev_IdZeroAfterMainRemoved,
-          Dev_TerminateKeepsObjects, Dev_FailedAddLeavesEntry
+          Dev_TerminateKeepsObjects, Dev_FailedAddLeavesEntry,
+          ClientSide,           \* FALSE: serviceImpl (bus/service.go); TRUE: clientService (bus/service_reference.go)
+          Dev_ClientRemoveKeepsEntry, Dev_ClientLateCallDropped
 
 Inst == 1..MaxInst
 Ids  == 0..MaxInst + 1            \* MaxInst+1 is never handed out: "unknown id"
 NONE == 0                         \* no instance
 NILOBJ == MaxInst + 1             \* objects[id] = nil (failed activation)
+Slots == 1..MaxInst               \* handler slots of the client's end point (slot s = index s-1)
 
 VARIABLES objects,   \* id -> instance | NONE | NILOBJ      (serviceImpl.objects)
           boxes,     \* id -> instance whose mailbox is registered | NONE | NILOBJ (pending mailbox)
@@ -54,14 +89,22 @@ VARIABLES objects,   \* id -> instance | NONE | NILOBJ      (serviceImpl.objects
           got,       \* instance -> subscriber -> events received
           svc,       \* "up" | "down"
           crashed,   \* nil dereference
-          ret        \* [e, v] of the last operation
-vars == <<objects, boxes, st, idOf, term, exec, subs, told, got, svc, crashed, ret>>
+          ret,       \* [e, v] of the last operation; e = "silent": the message was never answered
+          slot,      \* client side: id -> handler slot stored in objectsHandlers (0: no entry)
+          handlers,  \* client side: slot -> instance whose handler sits there | NONE
+          conn       \* client side: "open" | "closed" (the end point the objects hang on)
+vars == <<objects, boxes, st, idOf, term, exec, subs, told, got, svc, crashed, ret, slot, handlers, conn>>
 
 R(e, v) == [e |-> e, v |-> v]
-Init == /\ objects = [i \in Ids |-> IF i = 1 THEN 1 ELSE NONE]
-        /\ boxes = [i \in Ids |-> IF i = 1 THEN 1 ELSE NONE]
-        /\ st = [k \in Inst |-> IF k = 1 THEN "live" ELSE "new"]
-        /\ idOf = [k \in Inst |-> IF k = 1 THEN 1 ELSE 0]
+HasMain == ~ClientSide             \* a service starts with its main object (instance 1, id 1); a service reference with none
+InitTable == [i \in Ids |-> IF i = 1 /\ HasMain THEN 1 ELSE NONE]
+InitSt == [k \in Inst |-> IF k = 1 /\ HasMain THEN "live" ELSE "new"]
+InitIdOf == [k \in Inst |-> IF k = 1 /\ HasMain THEN 1 ELSE 0]
+NoSlot == [i \in Ids |-> 0]
+NoHandler == [s \in Slots |-> NONE]
+Init == /\ objects = InitTable /\ boxes = InitTable
+        /\ st = InitSt /\ idOf = InitIdOf
+        /\ slot = NoSlot /\ handlers = NoHandler /\ conn = "open"
         /\ term = [k \in Inst |-> 0] /\ exec = [k \in Inst |-> 0]
         /\ subs = [k \in Inst |-> {}]
         /\ told = [k \in Inst |-> [s \in Subs |-> 0]]
@@ -72,30 +115,41 @@ Alive == ~crashed
 NextInst == CHOOSE k \in Inst : st[k] = "new" /\ \A j \in Inst : st[j] = "new" => k <= j
 Fresh == CHOOSE i \in 2..MaxInst : objects[i] = NONE /\ boxes[i] = NONE /\ \A j \in Inst : idOf[j] # i
          \* an identifier never used before: the code draws 31 random bits
-PickId == IF Dev_IdZeroAfterMainRemoved /\ objects[1] = NONE THEN 0 ELSE Fresh
+PickId == IF ClientSide THEN NextInst          \* 2^31 + nextID: the n-th Add gets the n-th identifier
+          ELSE IF Dev_IdZeroAfterMainRemoved /\ objects[1] = NONE THEN 0 ELSE Fresh
 
-\* IsFresh(id): never handed out before (the code draws 31 random bits)
-IsFresh(id) == id >= 2 /\ objects[id] = NONE /\ boxes[id] = NONE /\ \A j \in Inst : idOf[j] # id
+\* IsFresh(id): never handed out before (the code draws 31 random bits; the client counts)
+IsFresh(id) == IF ClientSide THEN id = NextInst
+               ELSE id >= 2 /\ objects[id] = NONE /\ boxes[id] = NONE /\ \A j \in Inst : idOf[j] # id
+
+\* endPoint.MakeHandler: the first free slot
+FreeSlot == CHOOSE s \in Slots : handlers[s] = NONE /\ \A t \in Slots : handlers[t] = NONE => s <= t
 
 AddAs(k, id) ==      \* instance k is added under identifier id
-  /\ Alive /\ svc = "up" /\ st[k] = "new"
+  /\ Alive /\ svc = "up" /\ conn = "open" /\ st[k] = "new"
   /\ objects' = [objects EXCEPT ![id] = k]
   /\ boxes' = [boxes EXCEPT ![id] = k]
+  /\ IF ClientSide
+       THEN slot' = [slot EXCEPT ![id] = FreeSlot] /\ handlers' = [handlers EXCEPT ![FreeSlot] = k]
+       ELSE UNCHANGED <<slot, handlers>>
   /\ st' = [st EXCEPT ![k] = "live"]
   /\ idOf' = [idOf EXCEPT ![k] = id]
   /\ ret' = R("", k)
-  /\ UNCHANGED <<term, exec, subs, told, got, svc, crashed>>
+  /\ UNCHANGED <<term, exec, subs, told, got, svc, crashed, conn>>
 Add == (\E k \in Inst : st[k] = "new") /\ AddAs(NextInst, PickId)
 
 AddFailAs(k, id) ==
-  /\ Alive /\ svc = "up" /\ st[k] = "new"
-  /\ st' = [st EXCEPT ![k] = "failed"]
-  /\ idOf' = [idOf EXCEPT ![k] = id]
-  /\ IF Dev_FailedAddLeavesEntry
-       THEN objects' = [objects EXCEPT ![id] = NILOBJ] /\ boxes' = [boxes EXCEPT ![id] = NILOBJ]
-       ELSE UNCHANGED <<objects, boxes>>
-  /\ ret' = R("err", k)
-  /\ UNCHANGED <<term, exec, subs, told, got, svc, crashed>>
+  IF ClientSide
+    THEN AddAs(k, id)          \* clientService.Add ignores the error of obj.Activate (l.66-74)
+    ELSE
+      /\ Alive /\ svc = "up" /\ st[k] = "new"
+      /\ st' = [st EXCEPT ![k] = "failed"]
+      /\ idOf' = [idOf EXCEPT ![k] = id]
+      /\ IF Dev_FailedAddLeavesEntry
+           THEN objects' = [objects EXCEPT ![id] = NILOBJ] /\ boxes' = [boxes EXCEPT ![id] = NILOBJ]
+           ELSE UNCHANGED <<objects, boxes>>
+      /\ ret' = R("err", k)
+      /\ UNCHANGED <<term, exec, subs, told, got, svc, crashed, slot, handlers, conn>>
 AddFail == (\E k \in Inst : st[k] = "new") /\ AddFailAs(NextInst, PickId)
 
 \* OnTerminate of instance k: hook, subscribers told and dropped
@@ -103,75 +157,136 @@ Terminated(k, t, tl, sb) ==
   /\ t = [term EXCEPT ![k] = @ + 1]
   /\ tl = [told EXCEPT ![k] = [s \in Subs |-> IF s \in subs[k] THEN @[s] + 1 ELSE @[s]]]
   /\ sb = [subs EXCEPT ![k] = {}]
+\* ... of every instance of the set H
+TerminatedAll(H, t, tl, sb, stn) ==
+  /\ t = [k \in Inst |-> IF k \in H THEN term[k] + 1 ELSE term[k]]
+  /\ tl = [k \in Inst |-> [s \in Subs |-> IF k \in H /\ s \in subs[k] THEN told[k][s] + 1 ELSE told[k][s]]]
+  /\ sb = [k \in Inst |-> IF k \in H THEN {} ELSE subs[k]]
+  /\ stn = [k \in Inst |-> IF k \in H THEN "removed" ELSE st[k]]
 
-DoRemove(id) ==   \* the body of serviceImpl.Remove; ret is set by the caller
-  IF objects[id] \in Inst
-    THEN LET k == objects[id] IN
-         /\ objects' = [objects EXCEPT ![id] = NONE]
-         /\ boxes' = IF Dev_BoxKeptAfterRemove THEN boxes ELSE [boxes EXCEPT ![id] = NONE]
-         /\ st' = [st EXCEPT ![k] = "removed"]
-         /\ Terminated(k, term', told', subs')
-         /\ UNCHANGED crashed
-    ELSE IF objects[id] = NILOBJ
-      THEN crashed' = TRUE /\ UNCHANGED <<objects, boxes, st, term, told, subs>>     \* nil.OnTerminate()
-      ELSE UNCHANGED <<objects, boxes, st, term, told, subs, crashed>>
+SDoRemove(id) ==   \* the body of serviceImpl.Remove; ret is set by the caller
+  /\ UNCHANGED <<slot, handlers>>
+  /\ IF objects[id] \in Inst
+       THEN LET k == objects[id] IN
+            /\ objects' = [objects EXCEPT ![id] = NONE]
+            /\ boxes' = IF Dev_BoxKeptAfterRemove THEN boxes ELSE [boxes EXCEPT ![id] = NONE]
+            /\ st' = [st EXCEPT ![k] = "removed"]
+            /\ Terminated(k, term', told', subs')
+            /\ UNCHANGED crashed
+       ELSE IF objects[id] = NILOBJ
+         THEN crashed' = TRUE /\ UNCHANGED <<objects, boxes, st, term, told, subs>>     \* nil.OnTerminate()
+         ELSE UNCHANGED <<objects, boxes, st, term, told, subs, crashed>>
+
+CDoRemove(id) ==   \* the body of clientService.Remove: entry deleted, then endPoint.RemoveHandler(slot)
+  /\ UNCHANGED crashed
+  /\ IF objects[id] = NONE
+       THEN UNCHANGED <<objects, boxes, slot, handlers, st, term, told, subs>>
+       ELSE LET s == slot[id]
+                k == handlers[s]       \* whoever sits in that slot NOW
+            IN /\ IF Dev_ClientRemoveKeepsEntry THEN UNCHANGED <<objects, slot>>
+                    ELSE objects' = [objects EXCEPT ![id] = NONE] /\ slot' = [slot EXCEPT ![id] = 0]
+               /\ IF k = NONE
+                    THEN UNCHANGED <<boxes, handlers, st, term, told, subs>>       \* "invalid handler id"
+                    ELSE /\ handlers' = [handlers EXCEPT ![s] = NONE]
+                         /\ boxes' = [boxes EXCEPT ![idOf[k]] = NONE]
+                         /\ st' = IF k = objects[id] THEN [st EXCEPT ![k] = "removed"] ELSE st
+                         /\ Terminated(k, term', told', subs')       \* the closer of the handler
+
+DoRemove(id) == IF ClientSide THEN CDoRemove(id) ELSE SDoRemove(id)
+RemoveOK(id) == IF ClientSide THEN objects[id] # NONE /\ handlers[slot[id]] # NONE
+                ELSE objects[id] \in Inst
 
 Remove(id) ==
   /\ Alive
   /\ DoRemove(id)
-  /\ ret' = IF objects[id] \in Inst THEN R("", 0) ELSE R("err", 0)
-  /\ UNCHANGED <<idOf, exec, got, svc>>
+  /\ ret' = IF RemoveOK(id) THEN R("", 0) ELSE R("err", 0)
+  /\ UNCHANGED <<idOf, exec, got, svc, conn>>
 
 \* which instance a message addressed to id reaches (NONE: error reply)
 Target(id) == IF svc = "up" /\ boxes[id] \in Inst THEN boxes[id] ELSE NONE
+\* the answer to a message that reaches nobody
+Refused == IF ClientSide /\ Dev_ClientLateCallDropped THEN R("silent", 0) ELSE R("err", 0)
 
 RemoteTerminate(id) ==
-  /\ Alive /\ boxes[id] # NILOBJ
+  /\ Alive /\ conn = "open" /\ boxes[id] # NILOBJ
   /\ IF Target(id) = NONE
-       THEN ret' = R("err", 0) /\ UNCHANGED <<objects, boxes, st, term, told, subs, crashed>>
+       THEN ret' = Refused /\ UNCHANGED <<objects, boxes, st, term, told, subs, crashed, slot, handlers>>
        ELSE /\ DoRemove(idOf[Target(id)])       \* the terminator removes the id given at activation
             /\ ret' = R("", 0)                  \* the error of Remove is dropped (service.go l.11-14)
-  /\ UNCHANGED <<idOf, exec, got, svc>>
+  /\ UNCHANGED <<idOf, exec, got, svc, conn>>
 
 Call(id) ==
-  /\ Alive /\ boxes[id] # NILOBJ                \* a pending mailbox never answers: not driven
+  /\ Alive /\ conn = "open" /\ boxes[id] # NILOBJ    \* a pending mailbox never answers: not driven
   /\ IF Target(id) = NONE
-       THEN ret' = R("err", 0) /\ UNCHANGED exec
+       THEN ret' = Refused /\ UNCHANGED exec
        ELSE exec' = [exec EXCEPT ![Target(id)] = @ + 1] /\ ret' = R("", 0)
-  /\ UNCHANGED <<objects, boxes, st, idOf, term, subs, told, got, svc, crashed>>
+  /\ UNCHANGED <<objects, boxes, st, idOf, term, subs, told, got, svc, crashed, slot, handlers, conn>>
 
 Subscribe(id, s) ==
-  /\ Alive /\ boxes[id] # NILOBJ
+  /\ Alive /\ boxes[id] # NILOBJ /\ ~ClientSide
   /\ \A k \in Inst : s \notin subs[k]            \* one registration per subscriber connection at a time
   /\ IF Target(id) = NONE
        THEN ret' = R("err", 0) /\ UNCHANGED subs
        ELSE subs' = [subs EXCEPT ![Target(id)] = @ \cup {s}] /\ ret' = R("", 0)
-  /\ UNCHANGED <<objects, boxes, st, idOf, term, exec, told, got, svc, crashed>>
+  /\ UNCHANGED <<objects, boxes, st, idOf, term, exec, told, got, svc, crashed, slot, handlers, conn>>
 
 Emit(k) ==
-  /\ Alive /\ st[k] = "live" /\ svc = "up"
+  /\ Alive /\ st[k] = "live" /\ svc = "up" /\ ~ClientSide
   /\ got' = [got EXCEPT ![k] = [s \in Subs |-> IF s \in subs[k] THEN @[s] + 1 ELSE @[s]]]
   /\ ret' = R("", 0)
-  /\ UNCHANGED <<objects, boxes, st, idOf, term, exec, subs, told, svc, crashed>>
+  /\ UNCHANGED <<objects, boxes, st, idOf, term, exec, subs, told, svc, crashed, slot, handlers, conn>>
 
-SvcTerminate ==
-  /\ Alive
+SSvcTerminate ==
   /\ IF \E i \in Ids : objects[i] = NILOBJ
        THEN crashed' = TRUE /\ UNCHANGED <<objects, boxes, st, term, told, subs, svc>>
        ELSE LET Here == {objects[i] : i \in {j \in Ids : objects[j] \in Inst}} IN
-            /\ term' = [k \in Inst |-> IF k \in Here THEN term[k] + 1 ELSE term[k]]
-            /\ told' = [k \in Inst |-> [s \in Subs |-> IF k \in Here /\ s \in subs[k] THEN told[k][s] + 1 ELSE told[k][s]]]
-            /\ subs' = [k \in Inst |-> IF k \in Here THEN {} ELSE subs[k]]
-            /\ st' = [k \in Inst |-> IF k \in Here THEN "removed" ELSE st[k]]
+            /\ TerminatedAll(Here, term', told', subs', st')
             /\ IF Dev_TerminateKeepsObjects
                  THEN UNCHANGED <<objects, boxes>>
                  ELSE objects' = [i \in Ids |-> NONE] /\ boxes' = [i \in Ids |-> NONE]
             /\ svc' = "down"
             /\ UNCHANGED crashed
   /\ ret' = R("", 0)
-  /\ UNCHANGED <<idOf, exec, got>>
+  /\ UNCHANGED <<slot, handlers>>
 
-Next == \/ Add \/ AddFail \/ SvcTerminate
+\* clientService.Terminate: Remove of every entry, returns at the first error.  With the connection
+\* open (and no deviation) every entry has its handler: all are removed.  After the connection
+\* closed every entry is stale: the first Remove deletes its entry and fails - one entry less, an
+\* error, nothing else (which entry goes is the map's iteration order and cannot be observed).
+CSvcTerminate ==
+  LET entries == {i \in Ids : objects[i] # NONE}
+      stale   == {i \in entries : handlers[slot[i]] = NONE}
+      Here    == {handlers[slot[i]] : i \in entries} \ {NONE}
+  IN /\ UNCHANGED <<svc, crashed>>
+     /\ IF conn = "closed"
+          THEN /\ IF entries = {} THEN UNCHANGED <<objects, slot>>
+                    ELSE LET e == CHOOSE x \in entries : \A y \in entries : x <= y IN
+                         objects' = [objects EXCEPT ![e] = NONE] /\ slot' = [slot EXCEPT ![e] = 0]
+               /\ UNCHANGED <<boxes, handlers, st, term, told, subs>>
+               /\ ret' = IF entries = {} THEN R("", 0) ELSE R("err", 0)
+          ELSE /\ TerminatedAll(Here, term', told', subs', st')
+               /\ handlers' = [s \in Slots |-> IF handlers[s] \in Here THEN NONE ELSE handlers[s]]
+               /\ boxes' = [i \in Ids |-> IF boxes[i] \in Here THEN NONE ELSE boxes[i]]
+               /\ IF Dev_ClientRemoveKeepsEntry THEN UNCHANGED <<objects, slot>>
+                    ELSE objects' = [i \in Ids |-> NONE] /\ slot' = NoSlot
+               /\ ret' = IF stale = {} /\ Cardinality(Here) = Cardinality(entries) THEN R("", 0) ELSE R("err", 0)
+
+SvcTerminate ==
+  /\ Alive
+  /\ IF ClientSide THEN CSvcTerminate ELSE SSvcTerminate
+  /\ UNCHANGED <<idOf, exec, got, conn>>
+
+\* the end point of the client shuts down (closed by either side, or a read error):
+\* endPoint.closeWith runs the closer of EVERY handler - each hosted object is terminated once
+ConnClose ==
+  /\ ClientSide /\ Alive /\ conn = "open"
+  /\ LET Here == {handlers[s] : s \in Slots} \ {NONE} IN
+     TerminatedAll(Here, term', told', subs', st')
+  /\ handlers' = NoHandler /\ boxes' = [i \in Ids |-> NONE]
+  /\ conn' = "closed" /\ ret' = R("", 0)
+  /\ UNCHANGED <<objects, slot, idOf, exec, got, svc, crashed>>
+
+Next == \/ Add \/ AddFail \/ SvcTerminate \/ ConnClose
         \/ \E id \in Ids : Remove(id) \/ RemoteTerminate(id) \/ Call(id)
         \/ \E id \in Ids, s \in Subs : Subscribe(id, s)
         \/ \E k \in Inst : Emit(k)
@@ -181,11 +296,24 @@ Spec == Init /\ [][Next]_vars
 (* C16 *)
 TypeOK == /\ \A i \in Ids : objects[i] \in Inst \cup {NONE, NILOBJ} /\ boxes[i] \in Inst \cup {NONE, NILOBJ}
           /\ \A k \in Inst : st[k] \in {"new", "live", "removed", "failed"}
+          /\ \A i \in Ids : slot[i] \in Slots \cup {0}
+          /\ \A s \in Slots : handlers[s] \in Inst \cup {NONE}
+          /\ conn \in {"open", "closed"}
 
 \* identifiers unique among the live objects, every live object reachable under its identifier
 UniqueLiveIds ==
   /\ \A j, k \in Inst : (j # k /\ st[j] = "live" /\ st[k] = "live") => idOf[j] # idOf[k]
   /\ \A k \in Inst : (st[k] = "live" /\ svc = "up") => (objects[idOf[k]] = k /\ boxes[idOf[k]] = k)
+
+\* client side: identifiers are handed out in order and never reused; every entry of a live
+\* object designates the slot of ITS handler, a handler belongs to a live object
+ClientTable ==
+  ClientSide =>
+    /\ \A k \in Inst : st[k] # "new" => idOf[k] = k
+    /\ \A k \in Inst : st[k] = "live" => (slot[idOf[k]] \in Slots /\ handlers[slot[idOf[k]]] = k)
+    /\ \A s \in Slots : handlers[s] # NONE => (st[handlers[s]] = "live" /\ boxes[idOf[handlers[s]]] = handlers[s])
+    /\ \A i \in Ids : boxes[i] # NONE => \E s \in Slots : handlers[s] = boxes[i]
+    /\ conn = "closed" => \A k \in Inst : st[k] # "live"
 
 \* the termination hook has run exactly once for a removed object, never for a live one
 TerminateHookExactlyOnce ==
@@ -201,10 +329,13 @@ SubscribersTold ==
 \* no invocation of a removed object (the message is answered with an error instead)
 NoInvocationAfterRemoval == [][\A k \in Inst : st[k] \in {"removed", "failed"} => exec'[k] = exec[k]]_vars
 NoLateSubscription == [][\A k \in Inst : st[k] \in {"removed", "failed"} => subs'[k] \subseteq subs[k]]_vars
+\* ... and every message is answered (with an error when nobody is there)
+EveryCallAnswered == ret.e # "silent"
 
-\* removing one object never affects the others
+\* removing one object never affects the others (service Terminate and the loss of the
+\* connection concern every object by definition)
 OthersUnaffected ==
-  [][svc' = "up" =>
+  [][(svc' = "up" /\ ~(ClientSide /\ conn' # conn) /\ ~(ClientSide /\ SvcTerminate)) =>
        /\ Cardinality({k \in Inst : st[k] = "live" /\ st'[k] # "live"}) <= 1
        /\ \A k \in Inst : (st[k] = "live" /\ st'[k] = "live") =>
              (idOf'[k] = idOf[k] /\ term'[k] = term[k] /\ subs[k] \subseteq subs'[k] /\ told'[k] = told[k])]_vars
